@@ -242,7 +242,11 @@ impl FarmSim {
             let k = self.lps.iter().position(|l| *l == p.lp).unwrap_or(0);
             let v = (by / 3) % 4;
             let sender = if v >= 2 { self.w.users.iter().find(|u| **u != owner).cloned().unwrap() } else { owner.clone() };
-            return self.lock_via_pm(&sender, k, (amount.min(1_000_000_000)).max(1000) as u64, p.dur, Some(p.id.clone()), v % 2 == 1, st);
+            // somebody else may also try it "on behalf of" the owner (receiver = the position's owner)
+            self.pm_receiver = if v >= 2 && amount % 2 == 1 { Some(owner.to_string()) } else { None };
+            let r = self.lock_via_pm(&sender, k, (amount.min(1_000_000_000)).max(1000) as u64, p.dur, Some(p.id.clone()), v % 2 == 1, st);
+            self.pm_receiver = None;
+            return r;
         }
         let sender = if by % 3 == 0 { owner.clone() } else { self.w.users.iter().find(|u| **u != owner).cloned().unwrap() };
         if self.w.balance(&sender, &p.lp) < amount || amount == 0 {
@@ -301,7 +305,11 @@ impl FarmSim {
         };
         let wpre = self.weights_pre(sender.as_str(), &lp);
         let pre = Snapshot::take(&self.w);
-        let r = self.w.provide(sender, &pool, &funds, None, if single { Some(Decimal::percent(50)) } else { None }, None, Some(dur), id.clone());
+        let recv = self.pm_receiver.clone();
+        if recv.is_some() {
+            st.bump("locked deposit naming somebody else's position with that owner as receiver");
+        }
+        let r = self.w.provide(sender, &pool, &funds, None, if single { Some(Decimal::percent(50)) } else { None }, recv, Some(dur), id.clone());
         let post = Snapshot::take(&self.w);
         let ok = r.is_ok();
         st.bump(if ok { "locked deposit: ok" } else { "locked deposit: rejected" });
